@@ -152,13 +152,16 @@ class Bench:
     """one designed network; the transceiver library and the system margin are swapped per scenario by rebuilding the
     equipment dictionary from the (modified) equipment JSON with the real loader - neither enters the design."""
 
-    def __init__(self, name, eqpt_file, topo_file, add_drop_osnr=None, detailed_sites=(), detailed_osnr=(39.0, 43.0)):
+    def __init__(self, name, eqpt_file, topo_file, add_drop_osnr=None, detailed_sites=(), detailed_osnr=(39.0, 43.0),
+                 extra_fibers=()):
+        """topo_file: a file name under example-data or a topology dict (synthetic networks)"""
         from gnpy.tools.json_io import load_json, network_from_json
         from gnpy.tools.worker_utils import designed_network
         from gnpy.topology.spectrum_assignment import build_oms_list
         self.name = name
         self.ej = load_json(EX / eqpt_file)
         self.ej.pop('library-information', None)
+        self.ej['Fiber'] = list(self.ej['Fiber']) + [dict(f) for f in extra_fibers]
         for r in self.ej['Roadm']:
             if add_drop_osnr is not None and not r.get('roadm-path-impairments'):
                 r['add_drop_osnr'] = add_drop_osnr
@@ -166,7 +169,7 @@ class Bench:
                 for key, val in (('roadm-add-path', detailed_osnr[0]), ('roadm-drop-path', detailed_osnr[1])):
                     for band in prof.get(key, []):
                         band['roadm-osnr'] = val
-        topo = load_json(EX / topo_file)
+        topo = copy.deepcopy(topo_file) if isinstance(topo_file, dict) else load_json(EX / topo_file)
         for e in topo['elements']:
             if e['type'] == 'Roadm' and e['uid'] in detailed_sites:
                 e['type_variety'] = 'detailed_impairments'
@@ -248,6 +251,28 @@ class Bench:
                 raise Machinery(f'pristine propagation of {src}->{dst} recorded {len(evs)} receiver evaluations')
             self._pristine[key] = evs[0]
         return self._pristine[key]
+
+
+def line_topology(sites, hops):
+    """legacy topology JSON of a line of ROADM sites.  hops[k] = (spans towards the next site, spans back), each a list
+    of (km, fibre type_variety, extra fibre params): the two directions may differ (lengths, types, dispersion slope)"""
+    els, cx = [], []
+    for s in sites:
+        els.append({'uid': f'trx {s}', 'type': 'Transceiver'})
+        els.append({'uid': f'roadm {s}', 'type': 'Roadm'})
+        cx += [(f'trx {s}', f'roadm {s}'), (f'roadm {s}', f'trx {s}')]
+    for k, (fwd, back) in enumerate(hops):
+        for a, b, spans in ((sites[k], sites[k + 1], fwd), (sites[k + 1], sites[k], back)):
+            prev = f'roadm {a}'
+            for j, (km, variety, extra) in enumerate(spans):
+                uid = f'fiber ({a} -> {b}) {j}'
+                els.append({'uid': uid, 'type': 'Fiber', 'type_variety': variety,
+                            'params': dict({'length': km, 'length_units': 'km', 'loss_coef': 0.2, 'con_in': 0.5,
+                                            'con_out': 0.5}, **extra)})
+                cx.append((prev, uid))
+                prev = uid
+            cx.append((prev, f'roadm {b}'))
+    return {'elements': els, 'connections': [{'from_node': a, 'to_node': b} for a, b in cx]}
 
 
 # ------------------------------------------------------------------------------------------------------- libraries
